@@ -248,6 +248,13 @@ Fixpoint last_forced (regs : list reg) (s : bset) : option Z :=
   | r :: rest => if bs_subset s (r_set r) then Some (r_forced r) else last_forced rest s
   end.
 
+(* [tf] = the forced-efficiency clause is part of the invariant: true for
+   callers passing HWLOC_CPUKINDS_REGISTER_FLAG_OVERWRITE_FORCED_EFFICIENCY (the
+   public entry point, the XML importer); with tf = false everything else is
+   stated for any flags (the OS backends pass 0). *)
+Section WithForcedClause.
+Variable tf : bool.
+
 Record kind_ok (regs : list reg) (k : kind) : Prop := {
   ko_ne : bs_is_empty (k_cpuset k) = false;
   ko_atom : forall r, In r regs ->
@@ -256,7 +263,7 @@ Record kind_ok (regs : list reg) (k : kind) : Prop := {
   ko_exact : forall i, In i (k_infos k) ->
              exists r, In r regs /\ bs_subset (k_cpuset k) (r_set r) = true /\ In i (r_infos r);
   ko_nodup : NoDup (k_infos k);
-  ko_forced : last_forced regs (k_cpuset k) = Some (k_forced k);
+  ko_forced : tf = true -> last_forced regs (k_cpuset k) = Some (k_forced k);
   ko_arr : k_arr k = false -> k_infos k = []
 }.
 
@@ -309,7 +316,7 @@ Proof.
     exists r. split; [exact H1|split; [|exact H3]].
     rewrite (sub_part_eq regs k s r Hk H1 Hne Hs). exact H2.
   - apply (ko_nodup _ _ Hk).
-  - rewrite <- (ko_forced _ _ Hk). apply last_forced_ext. intros r Hr.
+  - intros Htf. rewrite <- (ko_forced _ _ Hk Htf). apply last_forced_ext. intros r Hr.
     apply (sub_part_eq regs k s r Hk Hr Hne Hs).
   - apply (ko_arr _ _ Hk).
 Qed.
@@ -329,7 +336,7 @@ Proof.
   - intros r [<-|Hr] Hsub; [congruence|apply (ko_sup _ _ Hk r Hr Hsub)].
   - intros i Hi. destruct (ko_exact _ _ Hk i Hi) as [r [H1 H2]]. exists r. split; [now right|exact H2].
   - apply (ko_nodup _ _ Hk).
-  - simpl. rewrite Hns. apply (ko_forced _ _ Hk).
+  - intros Htf. simpl. rewrite Hns. apply (ko_forced _ _ Hk Htf).
   - apply (ko_arr _ _ Hk).
 Qed.
 
@@ -342,7 +349,7 @@ Lemma kind_ok_cons_sub regs k r0 k2 :
   bs_subset (k_cpuset k2) (r_set r0) = true ->
   (forall i, In i (k_infos k2) <-> In i (k_infos k) \/ In i (r_infos r0)) ->
   NoDup (k_infos k2) ->
-  k_forced k2 = r_forced r0 ->
+  (tf = true -> k_forced k2 = r_forced r0) ->
   (k_arr k2 = false -> k_infos k2 = []) ->
   kind_ok (r0 :: regs) k2.
 Proof.
@@ -358,7 +365,7 @@ Proof.
       rewrite (sub_part_eq regs k _ r Hk H1 Hne Hs). exact H2.
     + exists r0. split; [now left|auto].
   - exact Hnd.
-  - simpl. rewrite Hs0, Hf. reflexivity.
+  - intros Htf. simpl. rewrite Hs0, (Hf Htf). reflexivity.
   - exact Harr.
 Qed.
 
@@ -369,7 +376,7 @@ Lemma kind_ok_cons_rest regs r0 k2 :
   (forall p, mem p (k_cpuset k2) = true -> registered regs p = false) ->
   (forall i, In i (k_infos k2) <-> In i (r_infos r0)) ->
   NoDup (k_infos k2) ->
-  k_forced k2 = r_forced r0 ->
+  (tf = true -> k_forced k2 = r_forced r0) ->
   (k_arr k2 = false -> k_infos k2 = []) ->
   kind_ok (r0 :: regs) k2.
 Proof.
@@ -387,7 +394,7 @@ Proof.
   - intros r [<-|Hr] Hsub i Hi; [now apply Hinf|rewrite (Hnsub r Hr) in Hsub; discriminate].
   - intros i Hi. exists r0. split; [now left|split; [exact Hs0|now apply Hinf]].
   - exact Hnd.
-  - simpl. rewrite Hs0, Hf. reflexivity.
+  - intros Htf. simpl. rewrite Hs0, (Hf Htf). reflexivity.
   - exact Harr.
 Qed.
 
@@ -403,7 +410,7 @@ Lemma reg_step_ok regs cs0 flags forced infos k cs tl k' n cs' tl' :
   bs_is_empty cs = false ->
   (forall p, mem p (k_cpuset k) = true -> mem p cs = mem p cs0) ->
   Forall slot_wf tl ->
-  (N.land flags OVERWRITE =? 0)%N = false ->
+  (tf = true -> (N.land flags OVERWRITE =? 0)%N = false) ->
   kind_ok regs k ->
   kind_ok (R cs0 forced (infos_of infos) :: regs) k' /\
   Forall (kind_ok (R cs0 forced (infos_of infos) :: regs)) n.
@@ -413,14 +420,22 @@ Proof.
   set (r0 := R cs0 forced (infos_of infos)).
   (* the two merge cases *)
   assert (Merge : bs_subset (k_cpuset k) cs = true ->
-          kind_ok (r0 :: regs) (set_forced (set_infos k (add_infos_opt (k_infos k) infos)) forced)).
+          kind_ok (r0 :: regs) (if negb (N.land flags OVERWRITE =? 0)%N || (k_forced k =? UNKNOWN)
+                                then set_forced (set_infos k (add_infos_opt (k_infos k) infos)) forced
+                                else set_infos k (add_infos_opt (k_infos k) infos))).
   { intros Hkc. destruct (add_infos_opt_spec (k_infos k) infos) as [A1 [A2 _]].
-    apply (kind_ok_cons_sub regs k r0); simpl; auto.
-    - apply (ko_ne _ _ Hk).
-    - apply bs_subset_refl.
-    - apply bs_subset_spec. intros p Hp. rewrite <- (Hrun p Hp). rewrite bs_subset_spec in Hkc. auto.
-    - apply A2, (ko_nodup _ _ Hk).
-    - intros Ha. apply (set_infos_arr k); [exact (ko_arr _ _ Hk)|exact Ha]. }
+    assert (G : forall k2, k_cpuset k2 = k_cpuset k -> k_infos k2 = add_infos_opt (k_infos k) infos ->
+                k_arr k2 = k_arr (set_infos k (add_infos_opt (k_infos k) infos)) ->
+                (tf = true -> k_forced k2 = forced) -> kind_ok (r0 :: regs) k2).
+    { intros k2 E1 E2 E3 E4. apply (kind_ok_cons_sub regs k r0); rewrite ?E1, ?E2; simpl; auto.
+      - apply (ko_ne _ _ Hk).
+      - apply bs_subset_refl.
+      - apply bs_subset_spec. intros p Hp. rewrite <- (Hrun p Hp). rewrite bs_subset_spec in Hkc. auto.
+      - apply A2, (ko_nodup _ _ Hk).
+      - rewrite E3. intros Ha. apply (set_infos_arr k); [exact (ko_arr _ _ Hk)|exact Ha]. }
+    destruct (negb (N.land flags OVERWRITE =? 0)%N || (k_forced k =? UNKNOWN)) eqn:Ec.
+    - apply G; reflexivity || auto.
+    - apply G; try reflexivity. intros Htf. rewrite (Hfl Htf) in Ec. discriminate. }
   (* the two split cases *)
   assert (Split : forall slot,
           bs_is_empty (bs_diff (k_cpuset k) (bs_inter cs (k_cpuset k))) = false ->
@@ -446,9 +461,8 @@ Proof.
       + apply A2, B2. constructor.
       + intros H. apply (set_infos_arr (K (bs_inter cs (k_cpuset k)) UNKNOWN forced (k_rank slot) [] false)); [|exact H].
         intros _. reflexivity. }
-  assert (Hor : negb (N.land flags OVERWRITE =? 0)%N || (k_forced k =? UNKNOWN) = true) by (rewrite Hfl; reflexivity).
   destruct (compare_inclusion cs (k_cpuset k)).
-  - (* EQUAL *) rewrite Hor in Es. injection Es as <- <- <- <-. split; [|constructor].
+  - (* EQUAL *) injection Es as <- <- <- <-. split; [|constructor].
     apply Merge. rewrite C. apply bs_subset_refl.
   - (* INCLUDED *) destruct tl as [|slot tl0]; [discriminate|].
     destruct (k_arr slot) eqn:Ea; [discriminate|]. injection Es as <- <- <- <-.
@@ -458,7 +472,7 @@ Proof.
       rewrite mem_diff, mem_inter, P1, P2. reflexivity.
     + apply bs_nonempty_mem in Hne. destruct Hne as [p Hp]. apply bs_nonempty_mem. exists p.
       rewrite mem_inter, Hp. rewrite bs_subset_spec in C1. rewrite (C1 p Hp). reflexivity.
-  - (* CONTAINS *) rewrite Hor in Es. injection Es as <- <- <- <-. split; [|constructor].
+  - (* CONTAINS *) injection Es as <- <- <- <-. split; [|constructor].
     apply Merge. apply C.
   - (* INTERSECTS *) destruct tl as [|slot tl0]; [discriminate|].
     destruct (k_arr slot) eqn:Ea; [discriminate|]. injection Es as <- <- <- <-.
@@ -480,7 +494,7 @@ Lemma reg_loop_ok regs cs0 flags forced infos : forall olds cs tl r n c t,
   (forall k p, In k olds -> mem p (k_cpuset k) = true -> mem p cs = mem p cs0) ->
   (forall p, (cnt olds p <= 1)%nat) ->
   Forall slot_wf tl ->
-  (N.land flags OVERWRITE =? 0)%N = false ->
+  (tf = true -> (N.land flags OVERWRITE =? 0)%N = false) ->
   Forall (kind_ok regs) olds ->
   Forall (kind_ok (R cs0 forced (infos_of infos) :: regs)) (r ++ n) /\ Forall slot_wf t.
 Proof.
@@ -540,7 +554,7 @@ Proof. induction z; simpl; constructor; auto. intros _. reflexivity. Qed.
 Lemma internal_register_inv regs st cs forced infos flags st' :
   Inv regs st ->
   internal_register st cs forced infos flags = IOk st' ->
-  (N.land flags OVERWRITE =? 0)%N = false ->
+  (tf = true -> (N.land flags OVERWRITE =? 0)%N = false) ->
   Inv (R cs forced (infos_of infos) :: regs) st'.
 Proof.
   intros [Ik Ip It] H Hfl. unfold internal_register in H.
@@ -1002,7 +1016,7 @@ Proof.
   - intros i Hi. destruct (ko_exact _ _ Hk i Hi) as [r [H1 [H2 H3]]].
     exists (restrict_reg t r). split; [now apply in_map|]. simpl. rewrite (Key r H1). auto.
   - apply (ko_nodup _ _ Hk).
-  - rewrite <- (ko_forced _ _ Hk). clear - Key. induction regs as [|r regs IH]; simpl; [reflexivity|].
+  - intros Htf. rewrite <- (ko_forced _ _ Hk Htf). clear - Key. induction regs as [|r regs IH]; simpl; [reflexivity|].
     rewrite (Key r (or_introl eq_refl)). destruct (bs_subset (k_cpuset k) (r_set r)); [reflexivity|].
     apply IH. intros r' Hr'. apply Key. now right.
   - apply (ko_arr _ _ Hk).
@@ -1135,7 +1149,7 @@ Proof.
   destruct (bs_is_empty s) eqn:Es; simpl; [injection H as <- _; exact HI|].
   destruct (internal_register st s (if f <? 0 then UNKNOWN else f) i OVERWRITE) as [st1| |] eqn:Ei.
   - injection H as <- _. apply rank_state_inv.
-    apply (internal_register_inv regs st s _ i OVERWRITE st1 HI Ei). apply overwrite_flag_ok.
+    apply (internal_register_inv regs st s _ i OVERWRITE st1 HI Ei). intros _. apply overwrite_flag_ok.
   - exfalso. revert Ei. now apply internal_register_not_einval.
   - discriminate.
 Qed.
@@ -1582,4 +1596,162 @@ Lemma xml_reload_spec : forall env regs st st' rc,
   kinds st' = rank_kinds env (map fresh (kinds st)) /\ Inv regs st'.
 Proof.
   intros env regs st st' rc HI H. split; [eapply xml_reload_kinds; eauto|eapply xml_reload_inv; eauto].
+Qed.
+
+End WithForcedClause.
+
+(* ------------------------------------------------------------------ *)
+(* a finite universe of n PUs holds at most n kinds (pigeonhole), so the
+   2^29-kinds undefined shift is out of reach whatever the length of the history *)
+
+Fixpoint sumn (f : nat -> nat) (n : nat) : nat :=
+  match n with O => 0%nat | S m => (f m + sumn f m)%nat end.
+
+Lemma sumn_add f g n : sumn (fun m => (f m + g m)%nat) n = (sumn f n + sumn g n)%nat.
+Proof. induction n; simpl; lia. Qed.
+Lemma sumn_le1 f n : (forall m, (m < n)%nat -> (f m <= 1)%nat) -> (sumn f n <= n)%nat.
+Proof.
+  induction n; simpl; intros H; [lia|]. specialize (H n ltac:(lia)) as H1.
+  assert (sumn f n <= n)%nat by (apply IHn; intros m Hm; apply H; lia). lia.
+Qed.
+Lemma sumn_pos f n m : (m < n)%nat -> (1 <= f m)%nat -> (1 <= sumn f n)%nat.
+Proof.
+  induction n; simpl; intros Hm Hf; [lia|].
+  destruct (Nat.eq_dec m n) as [->|]; [lia|]. assert (1 <= sumn f n)%nat by (apply IHn; lia). lia.
+Qed.
+
+Lemma kinds_le_universe (n : nat) ks :
+  Forall (fun k => exists p, mem p (k_cpuset k) = true /\ (p < N.of_nat n)%N) ks ->
+  (forall p, (cnt ks p <= 1)%nat) ->
+  (length ks <= n)%nat.
+Proof.
+  intros Hne Hpd.
+  assert (G : (length ks <= sumn (fun m => cnt ks (N.of_nat m)) n)%nat).
+  { clear Hpd. induction Hne as [|k ks [p [Hp Hlt]] Hks IH]; simpl; [lia|].
+    rewrite sumn_add.
+    assert (1 <= sumn (fun m => b2n (mem (N.of_nat m) (k_cpuset k))) n)%nat; [|lia].
+    apply (sumn_pos _ n (N.to_nat p)); [lia|]. rewrite N2Nat.id, Hp. simpl. lia. }
+  assert (sumn (fun m => cnt ks (N.of_nat m)) n <= n)%nat by (apply sumn_le1; intros; apply Hpd). lia.
+Qed.
+
+Definition in_universe (n : nat) (h : list (option str * op)) : Prop :=
+  Forall (fun eo => match snd eo with
+                    | OpRegister (Some s) _ _ _ => bs_subset s (bs_range 0 (N.of_nat n)) = true
+                    | _ => True end) h.
+
+Lemma Inv_le_universe tf n regs st :
+  Inv tf regs st -> (forall p, registered regs p = true -> (p < N.of_nat n)%N) -> (length (kinds st) <= n)%nat.
+Proof.
+  intros HI Hu. apply kinds_le_universe.
+  - pose proof (inv_kinds _ _ _ HI) as Ik. rewrite Forall_forall in *. intros k Hk.
+    pose proof (ko_ne _ _ _ (Ik k Hk)) as Hne. apply bs_nonempty_mem in Hne. destruct Hne as [p Hp].
+    exists p. split; [exact Hp|]. apply Hu.
+    destruct (Inv_partition tf regs st HI) as [_ [_ P3]]. apply P3. eauto.
+  - intros p. rewrite (inv_part _ _ _ HI). destruct (registered regs p); simpl; lia.
+Qed.
+
+Lemma xml_import_no_ub : forall ks acc z,
+  Forall (fun k => bs_is_empty (k_cpuset k) = false) (acc ++ ks) ->
+  (forall p, (cnt (acc ++ ks) p <= 1)%nat) ->
+  Forall (fun k => NoDup (k_infos k)) ks ->
+  (N.of_nat (length (acc ++ ks)) < 2 ^ 29)%N ->
+  xml_import (St acc (repeat zero_slot z)) ks <> inl F_UB.
+Proof.
+  induction ks as [|k ks IH]; intros acc z Hne Hpd Hnd Hlen; simpl; [discriminate|].
+  destruct (internal_register (St acc (repeat zero_slot z)) (k_cpuset k) (k_forced k) (Some (k_infos k)) OVERWRITE)
+    as [st1| |f] eqn:Ei.
+  - (* the state after this registration is the one xml_import_spec describes *)
+    assert (Hs : xml_import (St acc (repeat zero_slot z)) [k] = inr st1) by (simpl; rewrite Ei; reflexivity).
+    apply Forall_app in Hne. destruct Hne as [Hna Hnk]. inversion Hnk as [|? ? Hk Hks]; subst.
+    inversion Hnd as [|? ? Hdk Hdks]; subst.
+    destruct (xml_import_spec [k] acc z st1) as [X1 [z' X2]]; auto.
+    + apply Forall_app. split; [exact Hna|constructor; [exact Hk|constructor]].
+    + intros p. specialize (Hpd p). rewrite !cnt_app in *. simpl in *. lia.
+    + destruct st1 as [ks1 tl1]. simpl in X1, X2. subst ks1 tl1. simpl map.
+      apply IH; auto.
+      * rewrite <- app_assoc. simpl. apply Forall_app. split; [exact Hna|constructor; [exact Hk|exact Hks]].
+      * intros p. specialize (Hpd p). rewrite <- app_assoc. rewrite !cnt_app in *. simpl in *. lia.
+      * rewrite <- app_assoc. simpl. rewrite !app_length in *. simpl in *. lia.
+  - exfalso. revert Ei. apply internal_register_not_einval.
+    apply Forall_app in Hne. destruct Hne as [_ Hnk]. now inversion Hnk.
+  - intros [= ->]. apply internal_register_bounds in Ei. simpl in Ei.
+    rewrite app_length in Hlen. lia.
+Qed.
+
+Lemma ghost_step_universe n regs o :
+  (forall p, registered regs p = true -> (p < N.of_nat n)%N) ->
+  match o with OpRegister (Some s) _ _ _ => bs_subset s (bs_range 0 (N.of_nat n)) = true | _ => True end ->
+  forall p, registered (ghost_step regs o) p = true -> (p < N.of_nat n)%N.
+Proof.
+  intros Hu Ho p. destruct o as [[s|] f i fl|t| | |]; simpl; auto.
+  - destruct ((fl =? 0)%N && negb (bs_is_empty s)); [|auto]. simpl. intros H.
+    apply orb_true_iff in H. destruct H as [H|H]; [|auto].
+    rewrite bs_subset_spec in Ho. apply Ho in H. rewrite mem_range in H. lia.
+  - rewrite registered_restrict. intros H. apply andb_true_iff in H. destruct H as [H _]. auto.
+Qed.
+
+Lemma run_no_ub_universe tf n : (N.of_nat n < 2 ^ 29)%N -> forall h regs st,
+  Inv tf regs st -> (forall p, registered regs p = true -> (p < N.of_nat n)%N) ->
+  in_universe n h -> run st h <> Fatal F_UB.
+Proof.
+  intros Hn. induction h as [|[env o] h IH]; intros regs st HI Hu Hh; simpl; [discriminate|].
+  inversion Hh as [|? ? Ho Hh']; subst. simpl in Ho.
+  pose proof (Inv_le_universe tf n regs st HI Hu) as Hlen.
+  destruct (step env st o) as [st1 rc1|f] eqn:Es.
+  - apply (IH (ghost_step regs o) st1); auto.
+    + eapply step_inv_all; eauto.
+    + now apply ghost_step_universe.
+  - intros [= ->]. destruct o; simpl in Es; try discriminate.
+    + unfold pub_register in Es. destruct (negb _); [discriminate|]. destruct cs; [|discriminate].
+      destruct (bs_is_empty b); [discriminate|].
+      destruct (internal_register st b _ infos OVERWRITE) eqn:E; try discriminate. injection Es as ->.
+      apply internal_register_bounds in E. lia.
+    + unfold xml_reload in Es. destruct (xml_import init_state (kinds st)) eqn:E; [|discriminate].
+      injection Es as ->. revert E. apply (xml_import_no_ub (kinds st) [] 0); simpl.
+      * pose proof (inv_kinds _ _ _ HI) as Ik. eapply Forall_impl; [|exact Ik]. intros k Hk. apply (ko_ne _ _ _ Hk).
+      * intros p. rewrite (inv_part _ _ _ HI). destruct (registered regs p); simpl; lia.
+      * pose proof (inv_kinds _ _ _ HI) as Ik. eapply Forall_impl; [|exact Ik]. intros k Hk. apply (ko_nodup _ _ _ Hk).
+      * lia.
+Qed.
+
+(* ------------------------------------------------------------------ *)
+(* statements used verbatim by Props/Properties_C15.v *)
+
+Lemma register_inv_overwrite regs st cs forced infos flags st' :
+  Inv true regs st -> internal_register st cs forced infos flags = IOk st' ->
+  (N.land flags OVERWRITE =? 0)%N = false -> Inv true (R cs forced (infos_of infos) :: regs) st'.
+Proof. intros HI H Hf. apply (internal_register_inv true regs st cs forced infos flags st' HI H). intros _. exact Hf. Qed.
+
+Lemma register_inv_any_flags_spec regs st cs forced infos flags st' :
+  Inv false regs st -> internal_register st cs forced infos flags = IOk st' ->
+  Inv false (R cs forced (infos_of infos) :: regs) st'.
+Proof. intros HI H. apply (internal_register_inv false regs st cs forced infos flags st' HI H). discriminate. Qed.
+
+Lemma Inv_weaken regs st : Inv true regs st -> Inv false regs st.
+Proof.
+  intros [Ik Ip It]. constructor; auto. eapply Forall_impl; [|exact Ik].
+  intros k [H1 H2 H3 H4 H5 H6 H7]. constructor; auto; discriminate.
+Qed.
+
+Lemma history_no_ub_universe_init n h :
+  (N.of_nat n < 2 ^ 29)%N -> in_universe n h -> run init_state h <> Fatal F_UB.
+Proof.
+  intros Hn Hh. apply (run_no_ub_universe true n Hn h [] init_state); [apply init_inv| |exact Hh].
+  intros p H. discriminate H.
+Qed.
+
+Lemma history_total_universe_init n h :
+  (N.of_nat n < 2 ^ 29)%N -> in_universe n h ->
+  exists st rc, run init_state h = Fine st rc /\ Inv true (ghost [] h) st /\ (length (kinds st) <= n)%nat.
+Proof.
+  intros Hn Hh. destruct (history_total_init true h) as [H|[st [rc [H1 H2]]]].
+  - exfalso. revert H. now apply (history_no_ub_universe_init n).
+  - exists st, rc. split; [exact H1|]. split; [exact H2|].
+    apply (Inv_le_universe true n (ghost [] h) st H2).
+    clear - Hh. assert (G : forall h regs, in_universe n h ->
+      (forall p, registered regs p = true -> (p < N.of_nat n)%N) ->
+      forall p, registered (ghost regs h) p = true -> (p < N.of_nat n)%N).
+    { induction h0 as [|[env o] h0 IH]; intros regs Hu Hr; simpl; [exact Hr|].
+      inversion Hu as [|? ? Ho Hu']; subst. apply IH; [exact Hu'|]. now apply ghost_step_universe. }
+    apply G; [exact Hh|]. intros p H. discriminate H.
 Qed.
